@@ -74,7 +74,7 @@ def mkCfg (style : Generated.Style) (flags : String) (render : RInfo → Text) (
 
 /-- the RInfo `create_header` hands to the template for this invocation (none when no header is rendered) -/
 def hdrInfo (c : HdrCfg) (replace skipExisting : Bool) (info : Extracted) (text : Text) : Option RInfo :=
-  let text := match text with           -- a leading byte order mark is set aside (Model.annotateText)
+  let text := match text with           -- a leading byte order mark is set aside (Model.annotateFile)
     | ch :: rest => if ch == bomChar then rest else text
     | [] => []
   if skipExisting && containsReuseInfo c.parses text then none
@@ -120,7 +120,7 @@ def stepHeader (fields : List String) : Option String :=
         else none
       let c := mkCfg (← findStyle style) flags render (← decodeList bad)
       let f := flags.toList
-      match annotateText c (f.getD 3 '0' == '1') (f.getD 4 '0' == '1') ⟨← decodeList lic, ← decodeList cpr, ← decodeList con⟩ (← decodeText t) with
+      match annotateFile c (f.getD 3 '0' == '1') (f.getD 4 '0' == '1') ⟨← decodeList lic, ← decodeList cpr, ← decodeList con⟩ (← decodeText t) with
       | .written t => pure ("W:" ++ encodeText t)
       | .skipped => pure "S"
       | .failed .commentCreate => pure "F:commentCreate"
